@@ -798,7 +798,17 @@ impl KotoVm {
                     // (e.g. in a nested VM running a generator or an overridden operator).
                     !matches!(error.error, ErrorKind::Timeout(_)),
                 ) {
-                    Ok((recover_register, ip)) => {
+                    Ok(CatchPoint {
+                        error_register: recover_register,
+                        catch_ip: ip,
+                        sequence_builder_count,
+                        string_builder_count,
+                    }) => {
+                        // Discard any sequences or strings that were being built when the error
+                        // was thrown, they won't be completed now.
+                        self.sequence_builders.truncate(sequence_builder_count);
+                        self.string_builders.truncate(string_builder_count);
+
                         let catch_value = match error.error {
                             ErrorKind::KotoError { thrown_value, .. } => thrown_value,
                             _ => KValue::Str(error.to_string().into()),
@@ -1094,7 +1104,13 @@ impl KotoVm {
                 catch_offset,
             } => {
                 let catch_ip = self.ip() + catch_offset as u32;
-                self.frame_mut().catch_stack.push((arg_register, catch_ip));
+                let catch_point = CatchPoint {
+                    error_register: arg_register,
+                    catch_ip,
+                    sequence_builder_count: self.sequence_builders.len(),
+                    string_builder_count: self.string_builders.len(),
+                };
+                self.frame_mut().catch_stack.push(catch_point);
             }
             TryEnd => {
                 self.frame_mut().catch_stack.pop();
@@ -3670,13 +3686,13 @@ impl KotoVm {
         &mut self,
         mut error: Error,
         allow_catch: bool,
-    ) -> Result<(u8, u32)> {
+    ) -> Result<CatchPoint> {
         error.extend_trace(self.instruction_frame());
 
         while let Some(frame) = self.call_stack.last() {
             match frame.catch_stack.last() {
-                Some((error_register, catch_ip)) if allow_catch => {
-                    return Ok((*error_register, *catch_ip));
+                Some(catch_point) if allow_catch => {
+                    return Ok(*catch_point);
                 }
                 _ => {
                     if frame.execution_barrier {
@@ -3961,6 +3977,18 @@ impl<'a, const N: usize> From<&'a [KValue; N]> for CallArgs<'a> {
 // The Map is optional to prevent recursive imports (see Vm::run_import).
 type ModuleCache = HashMap<PathBuf, Option<KMap>, BuildHasherDefault<FxHasher>>;
 
+// A point where execution resumes after an error is thrown in a try block
+#[derive(Clone, Copy, Debug)]
+struct CatchPoint {
+    // The register that receives the caught error
+    error_register: u8,
+    // The ip of the start of the catch block
+    catch_ip: u32,
+    // The number of sequence and string builders that were active when the try block was entered
+    sequence_builder_count: usize,
+    string_builder_count: usize,
+}
+
 // A frame in the VM's call stack
 #[derive(Clone)]
 struct Frame {
@@ -3981,7 +4009,7 @@ struct Frame {
     // When returning to this frame, the register that should receive the return value
     pub return_value_register: Option<u8>,
     // A stack of catch points for handling errors
-    pub catch_stack: Vec<(u8, u32)>, // catch error register, catch ip
+    pub catch_stack: Vec<CatchPoint>,
     // True if the frame should prevent execution from continuing after the frame is exited.
     // e.g.
     //   - a function is being called externally from the VM
